@@ -378,8 +378,11 @@ public:
   MDSPAN_INLINE_FUNCTION constexpr const extents_type& extents() const noexcept { return map_.extents(); };
   MDSPAN_INLINE_FUNCTION constexpr index_type extent(size_t r) const noexcept { return map_.extents().extent(r); };
   MDSPAN_INLINE_FUNCTION constexpr index_type size() const noexcept {
-//    return __impl::__size(*this);
-    return ctr_.size();
+    // the size of the multidimensional index space, not of the container (which is
+    // larger for non-exhaustive mappings and for oversized std::array containers)
+    size_t sz = 1;
+    for(rank_type r = 0; r < extents_type::rank(); r++) sz *= static_cast<size_t>(map_.extents().extent(r));
+    return static_cast<index_type>(sz);
   };
 
 
